@@ -45,6 +45,13 @@ impl SwiftField for Field90D {
     where
         Self: Sized,
     {
+        // The parser works with byte offsets: refuse multi-byte characters up front
+        if !input.is_ascii() {
+            return Err(ParseError::InvalidFormat {
+                message: "Field 90D must contain only ASCII characters".to_string(),
+            });
+        }
+
         let mut remaining = input;
 
         // Parse number of transactions (5n)
@@ -149,6 +156,13 @@ impl SwiftField for Field90C {
     where
         Self: Sized,
     {
+        // The parser works with byte offsets: refuse multi-byte characters up front
+        if !input.is_ascii() {
+            return Err(ParseError::InvalidFormat {
+                message: "Field 90C must contain only ASCII characters".to_string(),
+            });
+        }
+
         let mut remaining = input;
 
         // Parse number of transactions (5n)
